@@ -2,7 +2,7 @@
 
 (1) every conditional construct x every condition value with side-effecting operands is run in the real interpreter and
     validated against PanEval (which has a single Truthy operator) wherever the value is inside the modelled fragment;
-(2) for the whole pool (incl. typed descendants, Either values, user-defined B) the observed decision of each of the nine
+(2) for the whole pool (incl. typed descendants, Either values, user-defined B) the observed decision of each of the eleven
     constructs and the value's B property are tabulated and TLC checks the law Agree of PanTruth on the table."""
 import json
 import pvlib
@@ -165,7 +165,7 @@ def run():
     ck.cov["traces_validated_against_impl"] = st["ok"] + st["mismatch"] + len(rows)
     ck.cov["exhaustive"] = True
     ck.cov["rule"] = (f"pool of {len(pool)} condition values (zero/non-zero of every type, prototypes, bear descendants with and without a user-defined B, "
-                      "objects whose B is a value / method / side-effecting method / non-boolean, Either and error values) x 10 constructs with "
+                      "objects whose B is a value / method / side-effecting method / non-boolean, Either and error values) x 11 constructs with "
                       "side-effecting operands; non-trivial = values whose B evaluates (table rows checked by the Agree law)")
     ck.assumptions = ["values whose B raises or is missing are outside the property (conversion-hook errors)"]
     return ck.finish()
